@@ -729,4 +729,39 @@ def rule_j(ctx: Ctx) -> None:
                 '`refer` against the table that stores the missing entry or skips the call.')
 
 
-RULES = [rule_a, rule_b, rule_c, rule_d, rule_e, rule_f, rule_g, rule_h, rule_i, rule_j]
+FLOAT_PROBES = ('math.isnan', 'math.isinf', 'math.isfinite', 'float', 'math.floor', 'math.ceil', 'math.log10')
+
+
+def rule_k(ctx: Ctx) -> None:
+    """Facet validators receive decoded values of unbounded size (xs:integer is arbitrary precision): a probe that converts the value to
+    float - math.isnan(value), float(value) - raises OverflowError for an integer beyond the float range.  Inside a facet's __call__ such a
+    probe is covered by a handler for OverflowError, otherwise the error leaves is_valid()/iter_errors() as a built-in exception."""
+    rule = 'C11.k'
+    n = 0
+    for f in ctx.idx.iter_functions('validators.facets'):
+        if isinstance(f.node, ast.Lambda) or f.cls is None or f.name != '__call__':
+            continue
+        parents = None
+        for c in calls(f.node):
+            if text(c.func) not in FLOAT_PROBES or not c.args:
+                continue
+            arg = c.args[0]
+            if isinstance(arg, ast.Constant):
+                continue
+            # only probes of the validated value (the parameter) or of something derived from it
+            names = {x.id for x in ast.walk(arg) if isinstance(x, ast.Name)}
+            if not (names & set(f.params)):
+                continue
+            n += 1
+            if parents is None:
+                parents = enclosing_map(f.node)
+            hs = site_handlers(f, c, parents)
+            ok = covers(ctx, f, handler_classes(ctx, f, hs), 'OverflowError')
+            ctx.ob(rule, f'{f.cls.name}.__call__: `{text(c)[:40]}` on the validated value is covered for OverflowError', f.loc(c), ok,
+                   '' if ok else 'an xs:integer beyond the float range makes the probe raise OverflowError: <a>999…9</a> (400 digits) against a restriction of xs:integer with an '
+                   'enumeration leaves iter_errors() as OverflowError instead of "value must be one of …"', key=f'{f.qualname}|float-probe|{text(c.func)}')
+    ctx.floor(rule, 'float probes of the validated value in facet validators', n, 2)
+    ctx.explain('C11.k: handler coverage (OverflowError through the built-in hierarchy) of every float-converting probe applied to the validated value in the __call__ of a facet.')
+
+
+RULES = [rule_a, rule_b, rule_c, rule_d, rule_e, rule_f, rule_g, rule_h, rule_i, rule_j, rule_k]
